@@ -29,6 +29,16 @@ func NewTableWriter(fs storage.FileSystem, id int64) *TableWriter {
 	return &TableWriter{fs: fs, id: atomicNum}
 }
 
+// ContinueFrom makes sure that the next table file is numbered next or higher.
+func (c *TableWriter) ContinueFrom(next int64) {
+	for {
+		cur := c.id.Load()
+		if cur >= next || c.id.CompareAndSwap(cur, next) {
+			return
+		}
+	}
+}
+
 func (c *TableWriter) Write(entries iter.Seq[kv.Entry]) (*Table, error) {
 	reservedNum := c.id.Add(1) - 1
 	f := c.fs.New(fmt.Sprintf("%06d.sst", reservedNum))
